@@ -56,7 +56,7 @@ CLAIMS = {
         "symbolic delays, request sizes and stream contents: for the first request and for a later request from an ARBITRARY state satisfying "
         "the cache invariant (N samples delivered, caches = last delay_i background samples) every output sample equals own(N+k) + "
         "background(N+k+max_delay-delay_i), the invariant is re-established (so every request sequence is covered by induction), omitted "
-        "delays mean zero, and resetting clears the carried-over background. Bounded native run compares with a same-seed reference background. The later-request precondition models each cache as a *view* of the background stream's buffer (as the code leaves it), so a request that overwrites that buffer in place fails.",
+        "delays mean zero, and resetting clears the carried-over background. Bounded native run compares with a same-seed reference background. Ownership: a separate later-request contract builds each cache as a *view* of the background stream's previous buffer (the heap shape the code leaves) and carries the frame obligation that this buffer is never written by the next request.",
    note="trusted: pyvc engine; ghost generator stream model; antenna count enumerated 1..3 (stated, not hidden); one noise + one signal source per stream",
    technique="contract-based deductive verification (Hoare triples with a two-state cache invariant, ghost stream positions); bounded native replay"),
  'C08': dict(cat='proof', ref='DESIGN.md 2/C08',
